@@ -597,6 +597,9 @@ def rule_allnanfill(ctx) -> RuleResult:
 _EXTERNAL_NAN_SKIPPING = {"numba": ("max", "min")}
 
 
+_ARITH_AGG = {"sum", "nansum", "mean", "nanmean", "prod", "nanprod", "var", "nanvar", "std", "nanstd", "cumsum", "nancumsum", "add", "dot"}
+
+
 def rule_numbaminmax(ctx) -> RuleResult:
     res = RuleResult("R-NUMBAMINMAX", "external kernels known to break the NaN discipline of their name are wrapped", min_instances=2)
     u = ctx.prog.units.get("aggregate_npg")
@@ -617,8 +620,20 @@ def rule_numbaminmax(ctx) -> RuleResult:
             if f is not None:
                 tests_engine = any(isinstance(c, ast.Compare) and norm(c.left) == "engine" and any(isinstance(k, ast.Constant) and k.value == engine for k in c.comparators)
                                    for c in ast.walk(f.node))
-                masks_nan = any(isinstance(c, ast.Call) and norm(c.func) in ("np.isnan", "isnull", "pd.isnull") for c in ast.walk(f.node))
+                nan_tests = [c for c in ast.walk(f.node) if isinstance(c, ast.Call) and norm(c.func) in ("np.isnan", "isnull", "pd.isnull") and c.args]
+                masks_nan = bool(nan_tests)
                 ok = tests_engine and masks_nan
+                # membership clause: "the group has a NaN member" is decided from the members themselves -- np.isnan of the data parameter
+                # (elementwise views allowed) -- never from an arithmetic aggregate of them: inf + -inf, 0 * inf are NaN without any NaN member
+                data = f.params[1] if len(f.params) > 1 else None
+                for c in nan_tests:
+                    inner = [k for k in ast.walk(c.args[0]) if isinstance(k, ast.Call)]
+                    arith = [k for k in inner if any(isinstance(v, ast.Constant) and v.value in _ARITH_AGG for v in list(k.args) + [kw.value for kw in k.keywords])
+                             or (isinstance(k.func, ast.Attribute) and k.func.attr in _ARITH_AGG)]
+                    if arith:
+                        res.report(f"aggregate_npg.{target}|nan-membership-from-arithmetic|{engine}|{name}", f.where(c), f.qualname,
+                                   f"'{norm(c)[:90]}' decides \"has a NaN member\" from an arithmetic aggregate ('{norm(arith[0])[:60]}'): a group holding +inf and -inf "
+                                   f"(or 0 and inf for a product) has a NaN total without a NaN member, so {name}([1, inf, -inf]) becomes NaN on engine '{engine}'")
             res.inst(f"aggregate_npg.{name} (engine {engine!r}): bound to {target or 'nothing: falls back to the raw numpy_groupies kernel'}; restores NaN propagation: {ok}",
                      f"{engine}|{name}")
             if not ok:
